@@ -16,7 +16,7 @@ pub fn def() -> CheckDef {
         salt: 0xC08,
         level: "exploration",
         rule: "random networks x closed (plain or extended) formulae x 1..5 composed rewrites: bijective renaming of all state variables (also onto \
-               x/xx/xxx in a different order), alpha-renaming binder by binder (sibling scopes get different names, more names than nesting depth), extra blanks at token boundaries, redundant parentheses, only the parentheses the grammar needs (chains of right-associative operators, unary prefixes, hybrid operators extending to the right), long vs short hybrid spellings, \
+               x/xx/xxx in a different order), alpha-renaming binder by binder (sibling scopes get different names, more names than nesting depth), extra blanks at token boundaries (spaces, tabs, and in half of the cases line feeds, CR LF, form feed, no-break / em space), redundant parentheses, only the parentheses the grammar needs (chains of right-associative operators, unary prefixes, hybrid operators extending to the right), long vs short hybrid spellings, \
                alternative constant spellings. The raw and the sanitised result of the rewritten text must be the identical BDD as for the \
                canonical text. Non-trivial: the result is neither empty nor the unit set and the rewrite changed the text; distinct by \
                (network, text, rewritten text).",
